@@ -77,6 +77,10 @@ def drive(tier):
             for s in (base + w, w + base, w + base + w, base + w + w, base[:1] + w + base[1:]):
                 dec(s)
                 check(s)
+    for base in ("2g", "StV1DL6CwTryKyV", "1BvBMSEYstWetqTFn5Au4m4GFg7xJaNVN2", "KSIksi", "5Kb8kLf9zgWQnogidDA76MzPL6TsZZY36hWXMssSzNydYXYB9KF"):
+        for s in gen.confuse(base, r, 8):
+            dec(s)
+            check(s)
     for kz in list(range(1, 45)):
         dec("z" * kz)
         dec("z" * kz + "".join(r.choice(ALPHA) for _ in range(r.randrange(0, 6))))
